@@ -273,6 +273,7 @@ def step (s : St α) (line : String) : St α × String :=
           (s, showMat ((KObj.mk k s.norm).featureDistanceBlock ex sq (seg s.pts a b) (seg s.pts c d)))
         | "dcheck", _ => (s, "ok")
         | "unitvar", _ => (s, "ok")
+        | "gderiv", _ => (s, "ok")
         | "flags", [] => (s, s!"norm={if s.norm then 1 else 0} np={k.numParams}")
         -- in-place reconfiguration of the live object: the cached flag `s.norm` is NOT recomputed
         | "setfactor", [.inl i, f] =>
